@@ -164,6 +164,23 @@ func init() {
 			}
 			defer w.close()
 			w.idp.nonceMode = vpS(opt, "idpNonce")
+			if w.idp.nonceMode == "replay" {
+				// the provider hands out, byte for byte, the ID token of an EARLIER login that this proxy accepted (valid signature,
+				// not expired, carrying that earlier login's nonce)
+				w.idp.nonceMode = "echo"
+				j0 := vpNewJar()
+				cb, err := w.login(j0, "alice", "")
+				if err != nil || w.sessionCookieEffect(cb) != "set" || w.get(j0, "/private").UpHits == 0 {
+					for _, c := range cs {
+						env.emit(vpOut{ID: c.ID, Err: "replay mode: the first login did not succeed"})
+					}
+					return
+				}
+				w.idp.mu.Lock()
+				w.idp.replayToken = w.idp.lastIDToken
+				w.idp.nonceMode = "replay"
+				w.idp.mu.Unlock()
+			}
 			// "other": the hashed nonce of an unrelated login's authorization request
 			{
 				r := w.startLogin(vpNewJar(), "")
